@@ -14,8 +14,8 @@ MANIFEST = {
             "FullScoreForgotState return the same (textbook) probability; out-state length <= min(order-1, in+1) for any "
             "input state; states equal on (length, words[0..length)) have identical back-offs and identical results for "
             "every continuation; ==, <, Compare are a consistent total order (byte-wise memcmp on little-endian words) "
-            "and == implies equal hash for State; for Left the hash clause is proved false with a witness (empty left "
-            "states differing in `full`). Tied to the code by the lm-query stream (FullScore vs FullScoreForgotState vs "
+            "and == implies equal hash for State; same for Left and ChartState (after repo patch 61: the old "
+            "hash_value(Left) is proved inconsistent with == by a witness). Tied to the code by the lm-query stream (FullScore vs FullScoreForgotState vs "
             "GetState for every prefix of every walk, all pairs of equal states for recombination, six model classes) "
             "and the state-algebra stream (random + adversarial struct contents incl. garbage beyond length).",
     "note": "Trusted: Lean kernel + standard axioms; statements in lean/Properties/C02.lean; harnesses c01_lmquery.cc / "
@@ -25,7 +25,7 @@ MANIFEST = {
 
 REQUIRED = ["KV.C02.state_sufficient", "KV.C02.state_bounds", "KV.C02.fullScore_congr", "KV.C02.equal_states_equal_backoffs",
             "KV.C02.compare_trichotomy", "KV.C02.compare_sign", "KV.C02.eq_hash", "KV.C02.eq_ignores_garbage",
-            "KV.C02.left_trichotomy", "KV.C02.left_eq_hash_partial", "KV.C02.left_eq_hash_fails"]
+            "KV.C02.left_trichotomy", "KV.C02.left_eq_hash", "KV.C02.chart_eq_hash", "KV.C02.left_eq_hash_failed_before_fix"]
 
 KEY_LEFT = "left-empty-full-hash"
 
@@ -212,7 +212,7 @@ def algebra_stream(ctx, hexe, dexe, n):
         elif eq and not heq:
             bad = "equal objects hash differently"
         if bad:
-            key = KEY_LEFT if (bad.startswith("equal objects") and empty_full) else None
+            key = None    # the Left hash deviation is repaired by repo_patches/61-fix-left-hash.patch
             if ctx.violation("state-algebra: %s (%s)" % (bad, kind), {"stream": "state-algebra", "op": op, "impl": li}, key=key):
                 found = True
     return found
